@@ -2,7 +2,7 @@
 //
 // Hand-written driver that was linked against the real, unmodified kyrodb-engine crate
 // (Cargo dependency `kyrodb-engine = { path = "/repo/engine" }`, plus tempfile, uuid, serde_json)
-// during the design phase to confirm that seven contract obligations which cannot hold on the
+// during the design phase to confirm that eight contract obligations which cannot hold on the
 // pinned tree correspond to failing histories of the real code.  Output observed on the pinned
 // tree is quoted above each scenario.  These scenarios become the replay files of the
 // corresponding findings (see DESIGN.md section 7).
@@ -173,6 +173,21 @@ fn drain_resurrects() {
     println!("  after  drain: exists(9)={} cold len={}", e.exists(9), e.cold_tier().len());
 }
 
+// F-C07-a  (C07)  the exact-hit key is a hash of the query quantised to i16 (saturating for |x| >= 1):
+//                 a different query is answered with another query's cached result, with no write in between
+//   query [2,0]  -> [SearchResult { doc_id: 1, distance: 0.0 }] via HotAndCold
+//   query [9,0]  -> [SearchResult { doc_id: 1, distance: 0.0 }] via CacheHit   (true nearest is doc 2 at distance 0)
+fn query_cache_key_collision() {
+    let cfg = TieredEngineConfig { hot_tier_max_size: 100, hot_tier_hard_limit: 200, hnsw_max_elements: 100, embedding_dimension: 2, hnsw_distance: DistanceMetric::Euclidean, data_dir: None, ..Default::default() };
+    let e = TieredEngine::new(Box::new(LruCacheStrategy::new(10)), Arc::new(QueryHashCache::new(10, 0.99)), vec![], vec![], cfg).unwrap();
+    e.insert(1, vec![2.0, 0.0], HashMap::new()).unwrap();
+    e.insert(2, vec![9.0, 0.0], HashMap::new()).unwrap();
+    let (r1, p1) = e.knn_search_with_ef_detailed(&[2.0, 0.0], 1, None).unwrap();
+    println!("  query [2,0]  -> {:?} via {:?}", r1, p1);
+    let (r2, p2) = e.knn_search_with_ef_detailed(&[9.0, 0.0], 1, None).unwrap();
+    println!("  query [9,0]  -> {:?} via {:?}", r2, p2);
+}
+
 fn main() {
     failed_overwrite(DistanceMetric::Euclidean, vec![1.0, 0.0], vec![f32::NAN, 0.0]);
     failed_overwrite(DistanceMetric::Cosine, vec![1.0, 0.0], vec![3e19, 3e19]);
@@ -183,4 +198,5 @@ fn main() {
     strict_fallback_loss();
     truncated_older_segment();
     drain_resurrects();
+    query_cache_key_collision();
 }
